@@ -46,6 +46,8 @@ def interface_loop(e):
 
 def run(ctx):
     repo = ctx.repo
+    rules.borrow(ctx, "C05", funcs=["forsys.fmatrix.ForceMatrix.add_mean_one", "forsys.fmatrix.ForceMatrix.add_mean_one_before"], minimum=4, because="the mean-one row counts the interfaces that remain after the exclusion")
+    rules.borrow(ctx, "C10", key_parts=["forsys.fmatrix.ForceMatrix / STATE /"], minimum=0, because="the excluded junctions belong to one matrix object, not to the class")
     spec_both = {0: True, -1: True}
 
     # ------------------------------------------------------------ copy 1 + flagging step
